@@ -239,6 +239,11 @@ func extractFacts(repo string) (string, error) {
 		{"result.go", "executionResult", "record"}, {"result.go", "executionResult", "Cancel"}, {"result.go", "executionResult", "Get"},
 		{"policy/policyexecutor.go", "BaseExecutor", "Apply"}, {"policy/policyexecutor.go", "BaseExecutor", "PostExecute"},
 		{"retrypolicy/retryexecutor.go", "executor", "Apply"}, {"retrypolicy/retryexecutor.go", "executor", "OnFailure"},
+		{"retrypolicy/retry.go", "retryPolicy", "ToExecutor"}, {"retrypolicy/retry.go", "config", "Build"}, {"retrypolicy/retry.go", "config", "allowsRetries"},
+		{"retrypolicy/retryexecutor.go", "executor", "getDelay"}, {"retrypolicy/retryexecutor.go", "executor", "getFixedOrRandomDelay"},
+		{"retrypolicy/retryexecutor.go", "executor", "adjustForJitter"}, {"retrypolicy/retryexecutor.go", "executor", "adjustForMaxDuration"},
+		{"circuitbreaker/circuitbreaker.go", "circuitBreaker", "ToExecutor"}, {"hedgepolicy/hedge.go", "hedgePolicy", "ToExecutor"},
+		{"hedgepolicy/hedge.go", "config", "Build"}, {"fallback/fallback.go", "fallback", "ToExecutor"},
 		{"circuitbreaker/circuitbreakerexecutor.go", "executor", "PreExecute"}, {"circuitbreaker/circuitbreakerexecutor.go", "executor", "OnSuccess"},
 		{"circuitbreaker/circuitbreakerexecutor.go", "executor", "OnFailure"}, {"circuitbreaker/circuitbreaker.go", "circuitBreaker", "transitionTo"},
 		{"bulkhead/bulkheadexecutor.go", "executor", "PreExecute"}, {"bulkhead/bulkheadexecutor.go", "executor", "PostExecute"},
@@ -257,6 +262,36 @@ func extractFacts(repo string) (string, error) {
 		eff[key] = fx.effectsOf(e[0], e[1], e[2])
 	}
 	facts["effects"] = eff
+
+	// 3b. normalised body text of the small functions whose exact logic a model transcribes by hand and that are outside the
+	// translator's subset (a change here is a broken obligation: the hand model has to be re-validated)
+	bodies := map[string]string{}
+	for _, e := range [][3]string{
+		{"retrypolicy/retryexecutor.go", "executor", "OnFailure"}, {"retrypolicy/retryexecutor.go", "executor", "Apply"},
+		{"retrypolicy/retry.go", "retryPolicy", "ToExecutor"}, {"retrypolicy/retry.go", "config", "Build"},
+		{"execution.go", "execution", "RecordResult"}, {"execution.go", "execution", "InitializeRetry"}, {"execution.go", "execution", "Cancel"},
+		{"execution.go", "execution", "isCanceledWithResult"}, {"execution.go", "execution", "CopyForHedge"}, {"execution.go", "execution", "CopyForCancellable"},
+		{"execution.go", "execution", "copy"}, {"execution.go", "", "newExecution"},
+		{"result.go", "executionResult", "record"}, {"result.go", "executionResult", "Cancel"}, {"result.go", "executionResult", "Get"},
+		{"executor.go", "executor", "execute"}, {"executor.go", "executor", "executeAsync"},
+		{"timeout/timeoutexecutor.go", "executor", "Apply"}, {"timeout/timeoutexecutor.go", "executor", "IsFailure"},
+		{"hedgepolicy/hedgeexecutor.go", "executor", "Apply"}, {"hedgepolicy/hedge.go", "config", "Build"},
+		{"circuitbreaker/circuitbreaker.go", "circuitBreaker", "transitionTo"}, {"circuitbreaker/circuitstats.go", "timedStats", "currentBucket"},
+		{"circuitbreaker/circuitbreakerexecutor.go", "executor", "OnFailure"}, {"circuitbreaker/circuitbreakerexecutor.go", "executor", "OnSuccess"},
+		{"circuitbreaker/circuitbreakerexecutor.go", "executor", "PreExecute"},
+		{"bulkhead/bulkhead.go", "bulkhead", "AcquirePermitWithMaxWait"}, {"bulkhead/bulkhead.go", "bulkhead", "ReleasePermit"},
+		{"bulkhead/bulkheadexecutor.go", "executor", "PreExecute"}, {"bulkhead/bulkheadexecutor.go", "executor", "PostExecute"},
+		{"fallback/fallbackexecutor.go", "executor", "Apply"}, {"cachepolicy/cacheexecutor.go", "executor", "PreExecute"},
+		{"cachepolicy/cacheexecutor.go", "executor", "PostExecute"}, {"policy/policyexecutor.go", "BaseExecutor", "Apply"},
+		{"policy/policyexecutor.go", "BaseExecutor", "PostExecute"}, {"internal/util/util.go", "", "MergeContexts"},
+		{"failsafehttp/http.go", "", "doRequest"}, {"failsafehttp/http.go", "", "bodyReader"},
+	} {
+		key := strings.TrimSuffix(filepath.Base(e[0]), ".go") + ":" + e[1] + "." + e[2]
+		if fd := fx.fn(e[0], e[1], e[2]); fd != nil {
+			bodies[key] = srcOf(fd.Body)
+		}
+	}
+	facts["bodies"] = bodies
 
 	// 4. root execution of executeAsync gets the cancel function
 	has := false
